@@ -200,21 +200,21 @@ Definition index_corr (t : utree) (o : sexp) : option string :=
 
 (** ** the oracle *)
 Definition expected_names (gen : string) (n : nat) (names : list string) : list string :=
-  if String.eqb gen "starnames" then names
+  if String.eqb gen "starnames" || String.eqb gen "starfromtree" then names
   else if String.eqb gen "balanced" then map tip_name (seq 0 (2 ^ n))
   else map tip_name (seq 0 n).
 
 (** documented minimum (error messages / doc comments of treegen.go) *)
 Definition valid_size (gen : string) (n : nat) (rooted : bool) : bool :=
   if String.eqb gen "balanced" then (if rooted then Nat.leb 1 n else Nat.leb 2 n)
-  else if String.eqb gen "star" || String.eqb gen "starnames" then Nat.leb 2 n
+  else if String.eqb gen "star" || String.eqb gen "starnames" || String.eqb gen "starfromtree" then Nat.leb 2 n
   else if String.eqb gen "topologies" then (if rooted then Nat.leb 2 n else Nat.leb 3 n)
   else Nat.leb 3 n.
 
 Definition oracle_tree (gen : string) (n : nat) (rooted : bool) (names : list string) (g : utree) (o : sexp)
   : option string :=
   let exp := expected_names gen n names in
-  let isstar := String.eqb gen "star" || String.eqb gen "starnames" in
+  let isstar := String.eqb gen "star" || String.eqb gen "starnames" || String.eqb gen "starfromtree" in
   first_some
     [ audit_ok o;
       (if wf g then None else Some "result is not a well-formed structure");
@@ -233,7 +233,11 @@ Definition oracle_tree (gen : string) (n : nat) (rooted : bool) (names : list st
       (if String.eqb gen "balanced" && Nat.leb 2 n && negb (balanced rooted n g) then Some "not balanced" else None);
       (if String.eqb gen "balanced" && Nat.eqb n 1 && rooted && negb (balanced rooted n g) then Some "not balanced" else None);
       indexes_ready g o;
-      depths_ready g o ].
+      depths_ready g o;
+      (match get_string "sametext" o with
+       | Some m => if String.eqb m "0" then None
+                   else Some ("hash codes / bitsets differ from those of the same tree read from its Newick text: " ++ m)
+       | None => Some "comparison with the tree read from text missing" end) ].
 
 Definition oracle_topologies (n : nat) (rooted : bool) (names : list string) (gs : list utree) (o : sexp)
   : option string :=
@@ -259,8 +263,9 @@ Definition plan_of (gen : string) (n : nat) (rooted : bool) : list draw :=
   else if String.eqb gen "balanced" then balanced_plan n rooted
   else [].
 
-Definition run_model (gen : string) (n : nat) (rooted : bool) (names : list string) (cs : list nat) (ls : list Q)
+Definition run_model (src : option utree) (gen : string) (n : nat) (rooted : bool) (names : list string) (cs : list nat) (ls : list Q)
   : option gres :=
+  if String.eqb gen "starfromtree" then match src with Some t => Some (star_tree_from_tree t) | None => None end else
   if String.eqb gen "uniform" then Some (uniform_tree n rooted cs ls)
   else if String.eqb gen "yule" then Some (yule_tree n rooted cs ls)
   else if String.eqb gen "caterpillar" then Some (caterpillar_tree n rooted ls)
@@ -269,7 +274,7 @@ Definition run_model (gen : string) (n : nat) (rooted : bool) (names : list stri
   else if String.eqb gen "starnames" then Some (star_tree_from_name names)
   else None.
 
-Definition judge_gen (gen : string) (n : nat) (rooted : bool) (names : list string) (o : sexp) : verdict :=
+Definition judge_gen (src : option utree) (gen : string) (n : nat) (rooted : bool) (names : list string) (o : sexp) : verdict :=
   match get_Ns "raw" o, get_Qs "exptab" o, get_Qs "ftab" o, get_string "err" o, get_string "panic" o with
   | Some raw, Some exptab, Some ftab, Some gerr, Some gpanic =>
     match run_plan (plan_of gen n rooted) 0 raw with
@@ -289,7 +294,7 @@ Definition judge_gen (gen : string) (n : nat) (rooted : bool) (names : list stri
             end
           else None in
       match early with Some msg => VOracle msg | None =>
-      match run_model gen n rooted names cs ls with
+      match run_model src gen n rooted names cs ls with
       | None => VBad "unknown generator"
       | Some m =>
         let consumed_ok :=
@@ -345,6 +350,10 @@ Definition judge_topologies (n : nat) (rooted : bool) (names : list string) (o :
           | None => None
           end
         else None in
+    let mismatch := negb (Nat.eqb (length names) 0) && negb (Nat.eqb (length names) n) in
+    if mismatch && String.eqb gerr "" then
+      VOracle "trees are returned although the number of names differs from the requested number of tips"
+    else
     match early with Some msg => VOracle msg | None =>
     match all_topologies n rooted names with
     | Err msg =>
@@ -446,7 +455,12 @@ Definition judge (c o : sexp) : verdict :=
     if String.eqb gen "randlib" then judge_randlib c o
     else if String.eqb gen "concurrent" then judge_concurrent c o
     else if String.eqb gen "topologies" then judge_topologies n rooted names o
-    else judge_gen gen n rooted names o
+    else if String.eqb gen "starfromtree" then
+      match get_tree "tree" c with
+      | Some t => let nm := map (fun p => uname (snd p)) (tip_edges t) in judge_gen (Some t) gen (length nm) false nm o
+      | None => VBad "no source tree"
+      end
+    else judge_gen None gen n rooted names o
   | _, _, _ => VBad "undecodable case"
   end
   | _, _ => VBad "undecodable case"
